@@ -119,6 +119,50 @@ def _extension_model(ctx: Ctx, f, site) -> None:
             ctx.ob("C07.R3", f, f.node, construct, ok, why or "list extended in place, stored gene returned, drawn = missing")
 
 
+def _grammar_memo(ctx: Ctx, sites) -> bool:
+    """every store of the group is a complete memo (sa/memo.py: the key determines the stored value) whose value expression only calls methods of
+    a Grammar-typed receiver or pure builtins on the key"""
+    from ..memo import memo_sites
+    PURE = {"len", "min", "max", "sum", "int", "float", "tuple", "frozenset", "sorted", "abs", "bool", "str"}
+    for s_ in sites:
+        ms = [m for m in memo_sites(s_.fn) if (m.node is s_.node or any(x is s_.node for x in ast.walk(m.node))) and m.key is not None and not m.missing]
+        if not ms:
+            return False
+        for c_ in ast.walk(ms[0].value):
+            if not isinstance(c_, ast.Call):
+                continue
+            if isinstance(c_.func, ast.Name) and c_.func.id in PURE:
+                continue
+            if isinstance(c_.func, ast.Attribute):
+                t_ = ctx.types.of(s_.fn.module, c_.func.value)
+                if t_ is not None and any(i.fn == "geneticengine.grammar.grammar.Grammar" for i in t_.instances()):
+                    continue
+            return False
+    return True
+
+
+def impure_mappings(ctx: Ctx) -> list[str]:
+    """Representations whose genotype_to_phenotype reaches a random draw that is not genotype-backed (nor the permitted extension): mapping
+    the same genotype twice need not give the same program there.  Used by C13 (is a re-derived program the individual's program?)."""
+    prog, res = ctx.prog, ctx.res
+    out = []
+    entries = [f for f in prog.implementations(REPRESENTATION, "genotype_to_phenotype")
+               if not (len(f.node.body) == 1 and isinstance(f.node.body[0], ast.Return) and isinstance(f.node.body[0].value, ast.Name))]
+    for f in sorted(entries, key=lambda x: x.fullname):
+        pv = Provenance(prog, res)
+
+        def user_configurable(recv: Term, g) -> bool:
+            init = prog.lookup_method(g.cls, "__init__") if g.cls is not None else None
+            return not (init is not None and len(init.params) > 1 and init.params[1] == "genotype")
+        pv.cha_filter = user_configurable
+        pv.run(f, {"self": Term("path", ("self",)), f.params[1]: Term("path", ("genotype",))})
+        for s_ in pv.draws:
+            if s_.term.kind not in ("gb", "unknown") and (f.fullname, s_.fn.qualname, s_.term.key()) not in PERMIT_DRAW:
+                out.append(f.cls.name if f.cls else f.qualname)
+                break
+    return out
+
+
 def run(ctx: Ctx) -> None:
     prog, res = ctx.prog, ctx.res
     ctx.rule("C07.R3", "the permitted on-demand extension stores what it draws in the genotype and returns the stored gene")
@@ -209,6 +253,9 @@ def run(ctx: Ctx) -> None:
                     allowed = why
                 if pf == site_fn and (tgt == pt or tgt.startswith(pt + ".") or tgt.endswith("." + pt.split(".", 1)[-1]) and pt.startswith("genotype")):
                     allowed = why
+            if not allowed and _grammar_memo(ctx, sites):
+                allowed = ("a memo whose key determines the stored value and whose value is computed from the key and the (read-only, C10) grammar alone: "
+                           "whatever mapping fills it, every later mapping reads the same value")
             if allowed:
                 ctx.accept("C07.R2", f"{rep} / {site_fn}", allowed)
                 ctx.ob("C07.R2", sites[0].fn, sites[0].node, construct, True, "allow-listed: " + allowed)
